@@ -80,7 +80,7 @@ int main()
       first = false;
       out += seg;
     }
-    std::cout << out << " race=0\n";
+    std::cout << out << " race=0\n" << std::flush;
   }
   return 0;
 }
